@@ -17,6 +17,7 @@ never be more silent than the implementation, and after `closed` it must reject 
 from __future__ import annotations
 
 import asyncio
+import contextlib
 import gc
 import socket
 import sys
@@ -39,6 +40,7 @@ TA = "_a._tcp.local."
 TB = "_b._tcp.local."
 MDNS = "224.0.0.251"
 D15_SIG = "C17:registration-completes-during-close"
+D16_SIG = "C17:overlapping-close-during-startup-raises"
 
 
 def gen_case(seed, idx):
@@ -73,6 +75,10 @@ def gen_case(seed, idx):
         # the default configuration has a dedicated listen socket besides the respond socket (unicast=True has not)
         "listen_socket": rng.random() < 0.6,
         # services on one `server` name with the same / different / nested address sets, or each on its own server
+        # further async_close() calls overlapping the first one (offsets from the first call), and cancellation of the
+        # task awaiting the first one (then another close is always made, so that some close returns)
+        "extra_closes": (sorted(rng.sample([0, 1, 60, 124, 125, 126, 249, 250, 251, 400], rng.choice([1, 1, 2]))) if rng.random() < 0.4 else []),
+        "cancel_first_at": (rng.choice([0, 1, 100, 125, 200, 250]) if rng.random() < 0.12 else None),
         "addr_mode": rng.choice(["same", "same", "different", "different", "superset", "mixed-family"]),
         "server_mode": rng.choice(["shared", "shared", "shared", "distinct"]),
     }
@@ -134,8 +140,8 @@ def simulate(case, close_at, want_blocks=True):
         t = eng._cleanup_timer
         a_ = src["a"]
         rx = a_.ltransport if a_.ltransport is not None else a_.transport   # where Host.deliver hands datagrams in
-        return [bool(za.done), bool(all(x.closed for x in a_.transports)), bool(t is not None and not t.cancelled()),
-                bool(rx is None or rx.closed)]
+        return [bool(za.done), bool(a_.transports and all(x.closed for x in a_.transports)), bool(t is not None and not t.cancelled()),
+                bool(rx is None or rx.closed), bool(eng.running_event is not None and eng.running_event.is_set())]
 
     orig_block = sim.block
 
@@ -146,7 +152,7 @@ def simulate(case, close_at, want_blocks=True):
         return orig_block(kind, obj, flags=snap(), **kw)
 
     sim.block = block
-    obs = {"sends": [], "callbacks": [], "api_errors": [], "marks": {}, "blocks": [], "registry_log": [], "errors": [], "lookups_done": []}
+    obs = {"sends": [], "callbacks": [], "api_errors": [], "marks": {}, "blocks": [], "registry_log": [], "errors": [], "lookups_done": [], "close_oids": [], "close_results": []}
 
     def cb(tag, kind, name):
         ev = [sim.now(), tag, kind, name]
@@ -294,7 +300,34 @@ def simulate(case, close_at, want_blocks=True):
                 obs["marks"]["late_action_at"] = sim.now()
                 do({"op": case["late_action"], "i": 2, "type": TA, "name": "sb." + TB, "timeout": 3000, "handlers": False})
             late = asyncio.ensure_future(late_job())
-        await asyncio.ensure_future(aza.async_close())
+        closes = []
+
+        def new_close():
+            t = asyncio.ensure_future(aza.async_close())
+            closes.append(t)
+            obs["close_oids"].append(sim.oid(t))
+            return t
+
+        first = new_close()
+        extra = list(case.get("extra_closes") or [])
+        cancel_at = case.get("cancel_first_at")
+        if cancel_at is not None and not extra:
+            extra = [cancel_at + 10]
+
+        async def later(ms, fn):
+            await sim.sleep_ms(ms)
+            fn()
+
+        helpers = [asyncio.ensure_future(later(d, new_close)) for d in extra]
+        if cancel_at is not None:
+            helpers.append(asyncio.ensure_future(later(cancel_at, first.cancel)))
+        # "close has returned" = the first of the overlapping calls to return normally
+        while not any(t.done() and not t.cancelled() and t.exception() is None for t in closes):
+            pending = [t for t in closes + helpers if not t.done()]
+            if not pending:   # every call raised: reported through close_results; carry on from here
+                obs["marks"]["no_close_returned"] = True
+                break
+            await asyncio.wait(pending, return_when=asyncio.FIRST_COMPLETED)
         obs["marks"]["close_returned"] = sim.now()
         obs["marks"]["n_events_at_return"] = len(sim.events)
         obs["marks"]["n_sends_at_return"] = len(obs["sends"])
@@ -306,11 +339,19 @@ def simulate(case, close_at, want_blocks=True):
         await sim.sleep_ms(case["second_close_after"])
         obs["marks"]["second_close_called"] = sim.now()
         n_before = len(obs["sends"])
-        await asyncio.ensure_future(aza.async_close())
+        await asyncio.gather(*helpers, return_exceptions=True)
+        await asyncio.gather(*closes, return_exceptions=True)
+        with contextlib.suppress(Exception):   # a raising second close is an observation (close_results), not a harness error
+            await new_close()
         obs["marks"]["second_close_returned"] = sim.now()
         obs["second_close_sends"] = len(obs["sends"]) - n_before
         obs["state_after_second_close"] = state_digest(za, aza)
+        await asyncio.gather(*helpers, return_exceptions=True)
+        await asyncio.gather(*closes, return_exceptions=True)
+        for t in closes:
+            obs["close_results"].append("ca" if t.cancelled() else ("ok" if t.exception() is None else type(t.exception()).__name__))
         await sim.sleep_ms(case["tail"])
+        obs["final_flags"] = snap()
         obs["marks"]["end"] = sim.now()
         ptask.cancel()
         stask.cancel()
@@ -328,6 +369,46 @@ def simulate(case, close_at, want_blocks=True):
                 "listeners": len(za.record_manager.listeners)}
 
     import zeroconf._services.registry as regm
+    import zeroconf._core as corem
+    import zeroconf._engine as engm
+
+    saved_cls = []
+
+    def in_close_step():
+        return sim._cur is not None and sim._cur.get("kind") == "step:async_close"
+
+    def patch_cls(cls, name, mk):
+        orig = getattr(cls, name)
+        setattr(cls, name, mk(orig))
+        saved_cls.append((cls, name, orig))
+
+    def mk_body(orig):
+        def f(self):
+            if self is src.get("za") and in_close_step():
+                sim.out_event({"phase": "body", "reg": len(self.registry.async_get_service_infos())})
+            return orig(self)
+        return f
+
+    def mk_send(orig):
+        def f(self, out, *a, **k):
+            if self is src.get("za") and in_close_step():
+                sim.out_event({"phase": "send"})
+            return orig(self, out, *a, **k)
+        return f
+
+    def mk_mark(phase, owner):
+        def mk(orig):
+            def f(self, *a, **k):
+                if self is owner() and in_close_step():
+                    sim.out_event({"phase": phase})
+                return orig(self, *a, **k)
+            return f
+        return mk
+
+    patch_cls(corem.Zeroconf, "generate_unregister_all_services", mk_body)
+    patch_cls(corem.Zeroconf, "async_send", mk_send)
+    patch_cls(corem.Zeroconf, "_close", mk_mark("markdone", lambda: src.get("za")))
+    patch_cls(engm.AsyncEngine, "_async_shutdown", mk_mark("shutdown", lambda: getattr(src.get("za"), "engine", None)))
 
     watched = {}
     reg_add = regm.ServiceRegistry.async_add
@@ -344,11 +425,164 @@ def simulate(case, close_at, want_blocks=True):
         sim.run(main)
     finally:
         regm.ServiceRegistry.async_add = reg_add
+        for cls, name, orig in saved_cls:
+            setattr(cls, name, orig)
     obs["errors"] += [[None, str(e.get("exception") or e.get("message"))[:200]] for e in sim.errors]
     obs["attempted"] = [[t, n] for (t, n, d, addr) in sim.sends_after_close]
     if want_blocks:
         obs["blocks"] = sim.events
     return obs
+
+
+def gen_early_case(seed, idx):
+    """closes requested while the engine is still starting (endpoints not created yet)"""
+    rng = C.rng_for(seed, "c17-early", idx)
+    n = rng.choice([1, 2, 2, 3])
+    return {"seed": seed, "idx": idx, "early": True, "start_delay": rng.choice([0, 1, 3, 40]), "listen_socket": rng.random() < 0.6,
+            "offsets": sorted(rng.choice([0, 0, 1, 2, 5, 50]) for _ in range(n)), "cancel_first_at": rng.choice([None, None, None, 0, 2]),
+            "tail": rng.choice([2000, 3600000])}
+
+
+def simulate_early(case):
+    """a fresh instance; `async_close()` is called `offsets` ms after construction, while `create_datagram_endpoint`
+    still takes `start_delay` ms per socket"""
+    from . import vsim
+    from zeroconf.asyncio import AsyncZeroconf
+    import zeroconf._core as corem
+    import zeroconf._engine as engm
+
+    sim = vsim.Sim(seed=case["seed"] * 100003 + case["idx"], maxdelay=0, loopback=True, log_blocks=True)
+    src = {}
+    obs = {"sends": [], "callbacks": [], "errors": [], "marks": {}, "blocks": [], "close_oids": [], "close_results": [], "early": True}
+
+    def snap():
+        za = src.get("za")
+        if za is None:
+            return None
+        eng = za.engine
+        t = eng._cleanup_timer
+        a_ = src["a"]
+        rx = a_.ltransport if a_.ltransport is not None else a_.transport
+        return [bool(za.done), bool(a_.transports and all(x.closed for x in a_.transports)), bool(t is not None and not t.cancelled()),
+                bool(rx is None or rx.closed), bool(eng.running_event is not None and eng.running_event.is_set())]
+
+    orig_block = sim.block
+    sim.block = lambda kind, obj=None, **kw: orig_block(kind, obj, flags=snap(), **kw)
+    saved = []
+
+    def in_close_step():
+        return sim._cur is not None and sim._cur.get("kind") == "step:async_close"
+
+    def patch_cls(cls, name, mk):
+        orig = getattr(cls, name)
+        setattr(cls, name, mk(orig))
+        saved.append((cls, name, orig))
+
+    def marker(phase, extra=None):
+        def mk(orig):
+            def f(self, *a, **k):
+                if in_close_step():
+                    ev = {"phase": phase}
+                    if extra is not None:
+                        ev.update(extra(self))
+                    sim.out_event(ev)
+                return orig(self, *a, **k)
+            return f
+        return mk
+
+    patch_cls(corem.Zeroconf, "generate_unregister_all_services", marker("body", lambda z: {"reg": len(z.registry.async_get_service_infos())}))
+    patch_cls(corem.Zeroconf, "async_send", marker("send"))
+    patch_cls(corem.Zeroconf, "_close", marker("markdone"))
+    patch_cls(engm.AsyncEngine, "_async_shutdown", marker("shutdown"))
+    orig_cde = vsim.VLoop.create_datagram_endpoint
+
+    async def slow_cde(self, pf, sock=None, **kw):
+        if case["start_delay"]:
+            await asyncio.sleep(case["start_delay"] / 1000.0)
+        else:
+            await asyncio.sleep(0)
+        return await orig_cde(self, pf, sock=sock, **kw)
+
+    vsim.VLoop.create_datagram_endpoint = slow_cde
+
+    async def main(sim):
+        sim.loop.set_exception_handler(lambda l, ctx: obs["errors"].append([sim.now(), str(ctx.get("exception") or ctx.get("message"))[:200]]))
+        a = sim.make_host("A", "10.0.0.1", listen_socket=bool(case.get("listen_socket")))
+        za = a.zc
+        aza = AsyncZeroconf(zc=za)
+        src["za"], src["a"] = za, a
+        sim.net.on_send = lambda t, h, d, addr: obs["sends"].append([t, addr[0], addr[1], d.hex()])
+        closes = []
+
+        def new_close():
+            t = asyncio.ensure_future(aza.async_close())
+            closes.append(t)
+            obs["close_oids"].append(sim.oid(t))
+
+        async def later(ms, fn):
+            if ms:
+                await sim.sleep_ms(ms)
+            fn()
+
+        helpers = [asyncio.ensure_future(later(d, new_close)) for d in case["offsets"]]
+        if case.get("cancel_first_at") is not None:
+            helpers.append(asyncio.ensure_future(later(case["cancel_first_at"], lambda: closes and closes[0].cancel())))
+        await asyncio.gather(*helpers)
+        await asyncio.gather(*closes, return_exceptions=True)
+        obs["marks"]["all_returned"] = sim.now()
+        obs["n_sends_at_return"] = len(obs["sends"])
+        for t in closes:
+            obs["close_results"].append("ca" if t.cancelled() else ("ok" if t.exception() is None else type(t.exception()).__name__))
+        await sim.sleep_ms(case["tail"])
+        obs["final_flags"] = snap()
+        eng = za.engine
+        obs["state"] = {"done": bool(za.done), "transports": [bool(t.closed) for t in a.transports], "running": bool(eng.running_event.is_set()),
+                        "cleanup_cancelled": bool(eng._cleanup_timer is None or eng._cleanup_timer.cancelled())}
+        gc.collect()
+        await asyncio.sleep(0)
+
+    warnings.filterwarnings("ignore", category=RuntimeWarning, message="coroutine .* was never awaited")
+    try:
+        sim.run(main)
+    finally:
+        vsim.VLoop.create_datagram_endpoint = orig_cde
+        for cls, name, orig in saved:
+            setattr(cls, name, orig)
+    obs["errors"] += [[None, str(e.get("exception") or e.get("message"))[:200]] for e in sim.errors]
+    obs["attempted"] = [[t, n] for (t, n, d, addr) in sim.sends_after_close]
+    obs["blocks"] = sim.events
+    return obs
+
+
+def evaluate_early(case, obs):
+    bad = []
+    ok = [r for r in obs["close_results"] if r == "ok"]
+    for k, r in enumerate(obs["close_results"]):
+        if r == "NotRunningException":
+            bad.append((D16_SIG, "async_close() call #%d, made while the engine was still starting and overlapping another close, raised NotRunningException" % k))
+        elif r not in ("ok", "ca"):
+            bad.append(("C17:close-call-raises:" + r, "async_close() call #%d raised %s" % (k, r)))
+    if ok:
+        st = obs["state"]
+        if not (st["done"] and all(st["transports"]) and st["cleanup_cancelled"] and not st["running"]):
+            bad.append(("C17:not-shut-down", "after close returned (closes during start-up): %s" % st))
+        if obs["sends"][obs["n_sends_at_return"]:] or obs["attempted"]:
+            bad.append(("C17:send-after-close", "datagram transmitted / attempted after close returned (closes during start-up)"))
+    if obs["errors"]:
+        bad.append(("C17:loop-exception", "loop exception handler called: %s" % obs["errors"][0][1]))
+    return bad
+
+
+def run_early_case(res, case, ctx, acc):
+    obs = simulate_early(case)
+    res.evaluations += 1
+    res.count("early:closes=%d/delay=%d" % (len(case["offsets"]), case["start_delay"]))
+    res.nontriv("early/%s/%s" % (",".join(obs["close_results"]), case["start_delay"]))
+    bad = evaluate_early(case, obs)
+    for sig, what in bad:
+        violate_limited(res, sig, what, {"case": case, "close_results": obs["close_results"], "state": obs.get("state")})
+    acc.append((case, obs))
+    return bad
 
 
 def evaluate(res, case, obs):
@@ -378,6 +612,9 @@ def evaluate(res, case, obs):
                     % obs["state_after_close"]["registry"]))
     elif changed:
         bad.append(("C17:second-close-changes-state", "closing again changed %s" % changed))
+    for k, r in enumerate(obs.get("close_results", [])):
+        if r not in ("ok", "ca"):
+            bad.append(("C17:close-call-raises:" + r, "overlapping async_close() call #%d raised %s" % (k, r)))
     if obs.get("tracked_not_cancelled"):
         bad.append(("C17:tracked-browser-not-cancelled", "%d browsers registered through AsyncZeroconf are still live (scheduler armed or listening) after close returned" % obs["tracked_not_cancelled"]))
     st = obs["state_after_close"]
@@ -443,7 +680,7 @@ def block_lines(case, obs):
         if e["t"] is None or e["t"] < mk["close_called"] or e.get("flags") is None:
             continue
         k = KIND.get(kind) or ("task" if kind.startswith("step:") else None)
-        if k is None:
+        if k is None or kind == "step:async_close":
             continue
         if k in ("recv", "outq", "cleanup", "tc") and e.get("obj") in peer:
             continue
@@ -457,7 +694,95 @@ def block_lines(case, obs):
 
 
 KIND = {"recv": "recv", "outq.ready": "outq", "sched.startup": "sched", "sched.ready": "sched", "cleanup": "cleanup", "tc.respond": "tc",
-        "orphan": "task", "step:async_close": "close"}
+        "orphan": "task"}
+
+
+def close_lines(obs):
+    """one `c17closes` line: the interleaved steps of all overlapping close calls.  Which model blocks a real task step
+    amounts to is read off the functions that ran inside it (markers logged by class-level wrappers); the driver replays
+    them through `Shutdown.run` and compares goodbyes transmitted, exceptions raised and the flags after every step."""
+    evs = obs["blocks"]
+    oids = list(obs.get("close_oids", []))
+    results = dict(zip(oids, obs.get("close_results", [])))
+    mine = [k for k, e in enumerate(evs) if e["kind"] == "step:async_close" and e.get("obj") in results and e.get("flags") is not None]
+    if not mine:
+        return [], []
+    last_of = {}
+    for k in mine:
+        last_of[evs[k]["obj"]] = k
+
+    def flags_after(k):
+        for e in evs[k + 1:]:
+            if e.get("flags") is not None:
+                return e["flags"]
+        return obs.get("final_flags") or evs[k]["flags"]
+
+    f0 = evs[mine[0]]["flags"]
+    model_running = f0[4]
+    index = {}       # task oid -> index of its closeCall in the model
+    seen_body = set()
+    dead = set()     # calls that ended before the model was told about them
+    call_time = {}
+    steps, info = [], []
+    for k in mine:
+        e = evs[k]
+        o = e["obj"]
+        fl = e["flags"]
+        if fl[4] and not model_running:
+            steps.append("1 start 0 0 - 0 - %s %s %s" % (C.b01(fl[0]), C.b01(fl[1]), C.b01(fl[2])))
+            info.append((e["t"], "startUp", o))
+            model_running = True
+        phases = [x for x in e["out"] if "phase" in x]
+        names = [x["phase"] for x in phases]
+        nsend = sum(1 for x in e["out"] if x.get("send") == "A")
+        is_last = last_of[o] == k
+        res_ = results[o] if is_last else None
+        call_time.setdefault(o, e["t"])
+        blocks = []
+        reg = None
+        body = next((x for x in phases if x["phase"] == "body"), None)
+        if o in dead:
+            continue
+        if o not in index:
+            if not fl[4] and not fl[0]:
+                index[o] = len(index)          # not running: the call parks in wait_for_start
+                blocks.append("call %d 0" % index[o])
+            elif body is not None:
+                index[o] = len(index)
+                blocks.append("call %d 0" % index[o])
+                seen_body.add(o)
+                reg = body["reg"]
+            elif is_last:
+                dead.add(o)                    # ended (cancelled) before doing anything the model distinguishes
+                continue
+            else:
+                continue                       # gather() over the tracked browsers etc.: nothing yet
+        elif body is not None and o not in seen_body:
+            seen_body.add(o)
+            reg = body["reg"]
+            blocks.append("wake %d %s" % (index[o], C.b01(e["t"] - call_time[o] >= 1000)))
+        i = index[o]
+        n_gb = names.count("send") - (1 if (body is not None and body["reg"] > 0) else 0)
+        blocks += ["gb %d 0" % i] * max(0, n_gb)
+        if "shutdown" in names:
+            blocks.append("sd %d 0" % i)
+        raised = "-"
+        if res_ == "ok":
+            blocks.append("fin %d 0" % i)
+        elif res_ == "ca":
+            blocks.append("ab %d 0" % i)
+            raised = "ca"
+        elif res_ == "NotRunningException":
+            if o not in seen_body:
+                blocks.append("wake %d 0" % i)
+            raised = "nr"
+        fa = flags_after(k)
+        steps.append("%d %s %s %d %s %s %s %s" % (len(blocks), " ".join(blocks), "-" if reg is None else str(reg), nsend, raised,
+                                                   C.b01(fa[0]), C.b01(fa[1]), C.b01(fa[2])))
+        info.append((e["t"], "close#%d %s" % (i, ",".join(names) or "-"), o))
+    steps = [" ".join(x.split()) for x in steps]
+    line = "c17closes %s %s %s %s %d %s" % (C.b01(f0[0]), C.b01(f0[1]), C.b01(f0[2]), C.b01(f0[4]), len(steps), " ".join(steps))
+    return [line], info
 
 
 def pick_close_time(case, times):
@@ -479,6 +804,9 @@ def run_case(res, case, ctx, acc):
     for a in case["acts"]:
         res.count("act:" + a["op"])
     res.count("late:" + str(case["late_action"]))
+    res.count("overlapping-closes:%d" % len(case.get("extra_closes") or []))
+    if case.get("cancel_first_at") is not None:
+        res.count("first-close-cancelled")
     mk = obs["marks"]
     in_flight = sorted({e["kind"] for e in obs["blocks"] if e["t"] >= mk["close_called"] and e["kind"] != "ORPHAN"})
     res.nontriv("c/%s/%s/%s" % (len(obs["registry_at_close"]), ",".join(in_flight), mk["close_returned"] - mk["close_called"]))
@@ -496,9 +824,17 @@ def flush_model(res, ctx, acc):
         return
     lines, spans = [], []
     for case, obs in acc:
+        if obs.get("early"):
+            cl, cinfo = close_lines(obs)
+            spans.append((case, obs, ("closes", cinfo), len(lines), len(cl)))
+            lines += cl
+            continue
         ls, info = block_lines(case, obs)
         spans.append((case, obs, info, len(lines), len(ls)))
         lines += ls
+        cl, cinfo = close_lines(obs)
+        spans.append((case, obs, ("closes", cinfo), len(lines), len(cl)))
+        lines += cl
         st = obs["state_after_close"]
         spans.append((case, obs, None, len(lines), 1))
         lines.append("c17closed %s %s %s" % (C.b01(st["done"]), C.b01(st["transports_closed"]), C.b01(not st["cleanup_cancelled"])))
@@ -515,6 +851,18 @@ def flush_model(res, ctx, acc):
             py = st["done"] and st["transports_closed"] and st["cleanup_cancelled"]
             if out[a] != C.b01(py):
                 res.disagree("c17closed", {"case": case}, C.b01(py), out[a])
+            continue
+        if isinstance(info, tuple):
+            cinfo = info[1]
+            verdicts = out[a].split(";") if out[a] != "-" else []
+            if len(verdicts) != len(cinfo):
+                res.disagree("c17closes", {"case": case}, "%d steps" % len(cinfo), out[a][:300])
+                continue
+            for (t, what, o), v in zip(cinfo, verdicts):
+                res.count("close-step:" + what.split(" ", 1)[-1])
+                if v != "ok":
+                    res.disagree("c17closes", {"case": case, "step": [t, what]}, "observed", v)
+                    break
             continue
         verdicts = out[a].split(";")
         if len(verdicts) != len(info):
@@ -541,12 +889,18 @@ def run(ctx):
                 "kinds of blocks in flight, close duration) signatures")
     acc = []
     for name, body in C.load_corpus("C17"):
-        run_case(res, body["case"], ctx, acc)
+        (run_early_case if body["case"].get("early") else run_case)(res, body["case"], ctx, acc)
         res.count("corpus")
+    # the part of the quantifier that needs real threads: close() from non-loop threads, the thread-based ServiceBrowser
+    from . import c17_threads
+    c17_threads.run(res, ctx, violate_limited)
     n = C.Budget(ctx["tier"], 150, 4000).n
     if ctx["widened"]:
-        n *= 4
+        n *= 2
     for idx in range(n):
+        if idx % 8 == 5:
+            run_early_case(res, gen_early_case(ctx["seed"], idx), ctx, acc)
+            continue
         case = gen_case(ctx["seed"], idx)
         run_case(res, case, ctx, acc)
         if idx < 2:
@@ -560,7 +914,11 @@ def run(ctx):
 
 def replay(body):
     case = body["case"]["case"] if "case" in body.get("case", {}) else body["case"]
+    if case.get("threads"):
+        from . import c17_threads
+        bad = c17_threads.run_one(case)
+        return {"violates": bool(bad), "findings": bad, "predicate": "C17 oracle on a real-thread scenario"}
     res = C.Result("C17")
     acc = []
-    bad = run_case(res, case, {"driver_ok": False}, acc)
-    return {"violates": bool(bad), "findings": bad, "marks": acc[0][1]["marks"], "predicate": "Zc.Shutdown.quietAfterClose"}
+    bad = (run_early_case if case.get("early") else run_case)(res, case, {"driver_ok": False}, acc)
+    return {"violates": bool(bad), "findings": bad, "marks": acc[0][1]["marks"], "predicate": "Zc.Shutdown.Closed / C17_quiet_run"}
